@@ -27,6 +27,9 @@ func c11Legs(tier, o string) []pairLeg {
 		add("hostile", HostileDocs())
 		add("deep", Deep(true))
 		add("large", Large())
+		add("numbers", NumDocs())
+		add("strings", StrDocs())
+		add("mixed", Mixed())
 	} else {
 		add("U4", U(4))
 		add("U3perm", UPerm(3))
@@ -35,6 +38,9 @@ func c11Legs(tier, o string) []pairLeg {
 		add("hostile", thin(HostileDocs(), 150))
 		add("deep", Deep(true))
 		add("large", Large())
+		add("numbers", NumDocs())
+		add("strings", StrDocs())
+		add("mixed", Mixed())
 	}
 	return legs
 }
@@ -63,7 +69,7 @@ func init() {
 		Run:      runC11,
 		Required: func(string) []string { return []string{"key-removal", "type-change", "nested"} },
 		Assume:   []string{"RFC 7386 section 2 pseudocode transcribed in /verif/mc/ref (validated on the RFC's appendix table at start-up)"},
-		Budget:   budget(4*time.Minute, 40*time.Minute),
+		Budget:   budget(7*time.Minute, 40*time.Minute),
 	})
 }
 
